@@ -18,13 +18,16 @@ QueryPaths == {<<"a">>, <<"c">>, <<"c", "b">>, <<"z">>}
 \* (None: a value like any other once it has been emitted)
 Plain == {"Zero", "False", "EmptyStr", "EmptyList", "One", "None"}
 Qty   == {"QZero", "QOne"}
+\* quantities without a physical dimension that still carry a scale (mm/m):
+\* their key carries the unit like any other quantity's
+Ratio == {"RZero", "ROne"}
 
 IsPrefixOf(p, q) == Len(p) <= Len(q) /\ SubSeq(q, 1, Len(p)) = p
 
 Shapes == {S \in SUBSET LeafPaths : Cardinality(S) >= 1 /\ Cardinality(S) <= MaxVars}
-Kinds(S) == [S -> {"plain", "qty"}]
-Cells(S, K) == {f \in [S -> Plain \cup Qty] :
-                  \A p \in S : f[p] \in (IF K[p] = "qty" THEN Qty ELSE Plain)}
+Kinds(S) == [S -> {"plain", "qty", "ratio"}]
+AtomsOf(k) == CASE k = "qty" -> Qty [] k = "ratio" -> Ratio [] OTHER -> Plain
+Cells(S, K) == {f \in [S -> Plain \cup Qty \cup Ratio] : \A p \in S : f[p] \in AtomsOf(K[p])}
 Cases ==
   UNION {UNION {UNION {{[shape |-> S, kind |-> K, n |-> n, cell |-> cs] :
                            cs \in [1..n -> Cells(S, K)]} : n \in 1..MaxTimes} :
@@ -52,7 +55,8 @@ LawQueryKeepsEverything ==
 
 Entry(cs) ==
   [n |-> cs.n,
-   vars |-> {[p |-> p, qty |-> cs.kind[p] = "qty", vals |-> Series(cs, p)] : p \in cs.shape},
+   vars |-> {[p |-> p, qty |-> cs.kind[p] # "plain", kind |-> cs.kind[p],
+              vals |-> Series(cs, p)] : p \in cs.shape},
    queries |-> {[q |-> Q, res |-> [i \in 1..cs.n |-> QueryAt(cs, Q, i)]] : Q \in Queries}]
 
 Export ==
